@@ -619,6 +619,37 @@ func sortedFieldNames(ep string) []string {
 	return ks
 }
 
+// drawProbe draws a well-formed request whose answer runRestStep checks against the reference; ep "" = any endpoint.
+func drawProbe(t *rapid.T, ep string) restStep {
+	if ep == "" {
+		ep = rapid.SampledFrom([]string{"hotp-gen", "totp-gen", "ocra-gen", "hotp-val", "totp-val", "totp-val", "secret", "secret", "suites"}).Draw(t, "probeEp")
+	}
+	p := restStep{Ep: ep, Key: rapid.SliceOfN(rapid.Byte(), 1, 30).Draw(t, "probeKey"), Sp: gen.Spelling{Pad: 1}}
+	p.HasCtr, p.Ctr = true, rapid.Uint64Range(20, 1<<40).Draw(t, "probeCtr")
+	p.HasTS, p.TS = true, int64(rapid.Uint64Range(1, 1<<40).Draw(t, "probeTS"))
+	if (p.Ep == "hotp-val" || p.Ep == "totp-val") && rapid.Bool().Draw(t, "probeWindow") {
+		// every admissible window 0..10: the widest ones are the most work a well-formed request can ask for, and
+		// they must be answered like any other (a worker pool sized for narrow windows wedges on the 13th counter)
+		p.HasSkew, p.Skew = true, uint64(rapid.IntRange(0, 10).Draw(t, "probeSkew"))
+	}
+	p.RawName = "OCRA-1:HOTP-SHA256-8:QN10"
+	p.In.Q = rapid.SliceOfN(rapid.Byte(), 10, 20).Draw(t, "probeQ")
+	if p.Ep == "ocra-gen" && rapid.Bool().Draw(t, "probeStructured") {
+		// a structured suite, different from probe to probe: the service must not depend on how many
+		// distinct configurations it has seen
+		p.RawName = ""
+		p.Cfg = drawUsableCfg(t)
+		p.HashStr = []string{"SHA1", "SHA256", "SHA512"}[p.Cfg.Hash]
+		p.In = drawAdmissible(t, p.Cfg)
+	}
+	if p.Ep == "secret" {
+		// GET /otp/secret: must keep answering with a fresh, well-formed secret however many were handed out
+		p.HasAlg, p.Alg = rapid.Bool().Draw(t, "probeSecretAlg"), rapid.SampledFrom([]string{"SHA1", "SHA256", "SHA512"}).Draw(t, "probeAlg")
+	}
+	p.Fresh = rapid.Bool().Draw(t, "probeFresh")
+	return p
+}
+
 func TestC19_Hostile(t *testing.T) {
 	c19Main.rapid(t, ev.Pick(400, 8_000), func(t *rapid.T) c19Case {
 		n := rapid.IntRange(2, 16).Draw(t, "n")
@@ -626,29 +657,7 @@ func TestC19_Hostile(t *testing.T) {
 		gap := rapid.IntRange(3, 5).Draw(t, "gap")
 		for i := 0; i < n; i++ {
 			if i%gap == gap-1 {
-				p := restStep{Ep: rapid.SampledFrom([]string{"hotp-gen", "totp-gen", "ocra-gen", "hotp-val", "totp-val", "totp-val", "secret", "secret", "suites"}).Draw(t, "probeEp"), Key: rapid.SliceOfN(rapid.Byte(), 1, 30).Draw(t, "probeKey"), Sp: gen.Spelling{Pad: 1}}
-				p.HasCtr, p.Ctr = true, rapid.Uint64Range(20, 1<<40).Draw(t, "probeCtr")
-				p.HasTS, p.TS = true, int64(rapid.Uint64Range(1, 1<<40).Draw(t, "probeTS"))
-				if (p.Ep == "hotp-val" || p.Ep == "totp-val") && rapid.Bool().Draw(t, "probeWindow") {
-					// every admissible window 0..10: the widest ones are the most work a well-formed request can ask for, and
-					// they must be answered like any other (a worker pool sized for narrow windows wedges on the 13th counter)
-					p.HasSkew, p.Skew = true, uint64(rapid.IntRange(0, 10).Draw(t, "probeSkew"))
-				}
-				p.RawName = "OCRA-1:HOTP-SHA256-8:QN10"
-				p.In.Q = rapid.SliceOfN(rapid.Byte(), 10, 20).Draw(t, "probeQ")
-				if p.Ep == "ocra-gen" && rapid.Bool().Draw(t, "probeStructured") {
-					// a structured suite, different from probe to probe: the service must not depend on how many
-					// distinct configurations it has seen
-					p.RawName = ""
-					p.Cfg = drawUsableCfg(t)
-					p.HashStr = []string{"SHA1", "SHA256", "SHA512"}[p.Cfg.Hash]
-					p.In = drawAdmissible(t, p.Cfg)
-				}
-				if p.Ep == "secret" {
-					// GET /otp/secret: must keep answering with a fresh, well-formed secret however many were handed out
-					p.HasAlg, p.Alg = rapid.Bool().Draw(t, "probeSecretAlg"), rapid.SampledFrom([]string{"SHA1", "SHA256", "SHA512"}).Draw(t, "probeAlg")
-				}
-				p.Fresh = rapid.Bool().Draw(t, "probeFresh")
+				p := drawProbe(t, "")
 				c.Reqs = append(c.Reqs, hostileReq{Probe: true, ProbeReq: p})
 				continue
 			}
@@ -1604,4 +1613,106 @@ func TestC19_ControlCharacters(t *testing.T) {
 		}
 	}
 	c19Ctl.rec().Exhaustive()
+}
+
+// ---------------------------------------------------------------------------
+// Bursts of failing requests. "Continues to answer subsequent well-formed requests correctly" is a statement about what
+// came before a request: the random histories interleave probes every 3rd..5th request, so a service that counts
+// consecutive failures (and starts refusing after the 5th, for everybody or for one route) never shows there. Here N
+// failing requests go to ONE route without anything in between, then a well-formed request to that route and one to any
+// route follow at once and must get the reference answer.
+
+type c19BurstCase struct {
+	Ep     string   `json:"ep"`     // the POST route the burst goes to
+	Bodies []string `json:"bodies"` // the failing bodies, in order
+	Fresh  bool     `json:"fresh"`  // probes on fresh connections
+	Same   restStep `json:"probe_same_route"`
+	Other  restStep `json:"probe_other"`
+}
+
+func checkC19Burst(c c19BurstCase) verdict {
+	sv := server()
+	path := postEndpoints[c.Ep]
+	labels := []string{"ep=" + c.Ep, fmt.Sprintf("burst>=%d", len(c.Bodies)/5*5)}
+	statuses := map[int]int{}
+	for i, b := range c.Bodies {
+		st, _, err := rawHTTP(sv.addr, "POST", path, []byte(b), 5*time.Second)
+		if err != nil {
+			if st, _, err = rawHTTP(sv.addr, "POST", path, []byte(b), 15*time.Second); err != nil {
+				hang("C19", "failure-bursts", c, recorders["C19/failure-bursts"], fmt.Sprintf("request %d of the burst: POST %s %s got no complete answer within 5 s and again within 15 s: %v", i, path, trunc(b, 120), err))
+			}
+		}
+		statuses[st/100]++
+	}
+	for k, n := range statuses {
+		labels = append(labels, fmt.Sprintf("burst-status=%dxx", k))
+		_ = n
+	}
+	for k, p := range []restStep{c.Same, c.Other} {
+		if _, _, err := runRestStep(sv, p); err != nil {
+			return bad(true, labels, "after %d consecutive failing requests to %s (answered %v by status class), the well-formed request to %s (%s) failed: %v", len(c.Bodies), path, statuses, p.Ep, []string{"the same route", "another route"}[k], err)
+		}
+	}
+	if !sv.alive() {
+		return bad(true, labels, "the server process died: %s", tailStr(sv.stderr.String(), 800))
+	}
+	if sv.stderr.alarm() {
+		return bad(true, labels, "the server reports an unrecovered panic, a fatal error or a data race: %s", trunc(sv.stderr.String(), 1500))
+	}
+	return ok(len(c.Bodies) >= 5, labels...)
+}
+
+var c19Burst = newPart("C19", "failure-bursts",
+	"rapid: 3..40 consecutive failing requests to ONE POST route of the real server (undecodable secrets of every invalid class, broken / empty / wrongly typed JSON, missing fields, inadmissible OCRA inputs, unknown suites - whatever status the service gives them), nothing in between, then at once a well-formed request to the same route and one to a drawn route (also GET /otp/secret, /ocra/suites), both checked against the reference by the C18 step runner; invariant: every request of the burst gets a complete response within the watchdog and both well-formed requests get the reference answer (a refusal that depends on what failed before is a violation), process alive, no unrecovered panic; non-trivial = burst of at least 5",
+	checkC19Burst)
+
+func TestC19_FailureBursts(t *testing.T) {
+	failing := map[string][]string{}
+	junkSecrets := []string{"!!!", "MZXW6YQ!", "M", "MZX", "MZXW6Y", "MZ=XW6YQ", "", "12345678", "MZXW6YQ1"}
+	for ep := range postEndpoints {
+		for _, js := range junkSecrets {
+			sec, _ := json.Marshal(js)
+			switch ep {
+			case "ocra-gen", "ocra-val":
+				failing[ep] = append(failing[ep], `{"secret":`+string(sec)+`,"raw_suite":"OCRA-1:HOTP-SHA1-6:QN08","code":"123456","input":{"challenge_hex":"3132333435363738"}}`)
+			case "url":
+				failing[ep] = append(failing[ep], `{"secret":`+string(sec)+`,"type":"nope","issuer":"","account_name":""}`)
+			default:
+				failing[ep] = append(failing[ep], `{"secret":`+string(sec)+`,"counter":1,"timestamp":59,"code":"123456"}`)
+			}
+		}
+		failing[ep] = append(failing[ep], ``, `{`, `{"secret":`, `[]`, `{"secret":5}`, `{}`, `null`, `{"secret":"GEZDGNBVGY3TQOJQ","counter":"x","timestamp":"x","suite":7,"input":7,"type":7}`)
+		if strings.HasPrefix(ep, "ocra") {
+			failing[ep] = append(failing[ep],
+				`{"secret":"GEZDGNBVGY3TQOJQ","raw_suite":"OCRA-1:HOTP-SHA1-6:QN08","code":"123456","input":{}}`,
+				`{"secret":"GEZDGNBVGY3TQOJQ","raw_suite":"OCRA-1:HOTP-SHA1-6:QN08","code":"123456","input":{"challenge_hex":"zz"}}`,
+				`{"secret":"GEZDGNBVGY3TQOJQ","raw_suite":"OCRA-9:NOPE","code":"123456","input":{"challenge_hex":"3132333435363738"}}`,
+				`{"secret":"GEZDGNBVGY3TQOJQ","raw_suite":"OCRA-1:HOTP-SHA1-6:C-QN08","code":"123456","input":{"challenge_hex":"3132333435363738","counter_hex":"01"}}`)
+		}
+	}
+	var eps []string
+	for ep := range postEndpoints {
+		eps = append(eps, ep)
+	}
+	sortStrings(eps)
+	c19Burst.rapid(t, ev.Pick(60, 1_200), func(t *rapid.T) c19BurstCase {
+		c := c19BurstCase{Ep: rapid.SampledFrom(eps).Draw(t, "ep"), Fresh: rapid.Bool().Draw(t, "fresh")}
+		n := rapid.SampledFrom([]int{3, 5, 6, 8, 10, 12, 20, 40}).Draw(t, "n")
+		one := rapid.Bool().Draw(t, "oneKind") // the same failing request N times, or a mix
+		first := rapid.SampledFrom(failing[c.Ep]).Draw(t, "body")
+		for i := 0; i < n; i++ {
+			if one {
+				c.Bodies = append(c.Bodies, first)
+			} else {
+				c.Bodies = append(c.Bodies, rapid.SampledFrom(failing[c.Ep]).Draw(t, "body"))
+			}
+		}
+		c.Same = drawProbe(t, c.Ep)
+		if c.Ep == "url" {
+			c.Same.Type, c.Same.Issuer, c.Same.Account = rapid.SampledFrom([]string{"totp", "hotp"}).Draw(t, "type"), "Example", "alice@example.com"
+		}
+		c.Other = drawProbe(t, "")
+		c.Same.Fresh, c.Other.Fresh = c.Fresh, c.Fresh
+		return c
+	})
 }
